@@ -137,6 +137,63 @@ package py
 //@   ensures before: forall k in [0, i): a.Items[k] == old(a.Items[k])
 //@   ensures after: forall k in [i, len(a.Items)): a.Items[k] == old(a.Items[k + 1])
 
+// ---- list item/slice assignment and deletion (C13, C17): whole-view postconditions ----
+// The value clauses are stated for values that are tuples or lists (what SequenceTuple materialises without running
+// user code); the list itself is a legal value (a[1:] = a).
+
+//@ spec seqVal(v Object) bool = is(v, Tuple) || is(v, *List)
+//@ spec tupleApart(v Object, l *List) bool = is(v, *List) || (is(v, Tuple) && (len(v.(Tuple)) == 0 || ref(v.(Tuple)) != ref(l.Items)))
+//@ spec vlen(v Object) int = ite(is(v, Tuple), len(v.(Tuple)), len(v.(*List).Items))
+//@ spec sliceKey(key Object) bool = is(key, *Slice) && sliceOK(key.(*Slice)) && sliceFits(key.(*Slice)) && (isNone(key.(*Slice).Step) || den(key.(*Slice).Step) != 0)
+//@ spec kstart(key Object, n int) int = sstart(key.(*Slice), n)
+//@ spec kstop(key Object, n int) int = imax(sstop(key.(*Slice), n), sstart(key.(*Slice), n))
+//@ spec kstep(key Object) int = sstep(key.(*Slice))
+//@ spec klen(key Object, n int) int = slen(key.(*Slice), n)
+
+//@ func (*List).M__setitem__(l, key, value) (res, err)
+//@   requires nn: keyNN(key) && value != nil
+//@   modifies *
+//@   ensures idxok: isIntLike(key) && 0 <= norm(den(key), len(old(l.Items))) && norm(den(key), len(old(l.Items))) < len(old(l.Items)) ==> err == nil && len(l.Items) == len(old(l.Items)) && l.Items[norm(den(key), len(l.Items))] == value
+//@   ensures idxframe: isIntLike(key) ==> len(l.Items) == len(old(l.Items)) && forall k in [0, len(l.Items)): k != norm(den(key), len(l.Items)) ==> l.Items[k] == old(l.Items[k])
+//@   ensures idxerr: isIntLike(key) && inInt64(den(key)) && !(0 <= norm(den(key), len(old(l.Items))) && norm(den(key), len(old(l.Items))) < len(old(l.Items))) ==> raisesExc(err, IndexError)
+//@   ensures s1ok: sliceKey(key) && kstep(key) == 1 && seqVal(value) ==> err == nil
+//@   ensures s1len: sliceKey(key) && kstep(key) == 1 && seqVal(value) ==> len(l.Items) == kstart(key, len(old(l.Items))) + old(vlen(value)) + len(old(l.Items)) - kstop(key, len(old(l.Items)))
+//@   ensures s1head: sliceKey(key) && kstep(key) == 1 && seqVal(value) ==> forall k in [0, kstart(key, len(old(l.Items)))): l.Items[k] == old(l.Items[k])
+//@   ensures s1midT: sliceKey(key) && kstep(key) == 1 && is(value, Tuple) ==> forall k in [0, len(value.(Tuple))): l.Items[kstart(key, len(old(l.Items))) + k] == old(value.(Tuple)[k])
+//@   ensures s1midL: sliceKey(key) && kstep(key) == 1 && is(value, *List) ==> forall k in [0, len(old(value.(*List).Items))): l.Items[kstart(key, len(old(l.Items))) + k] == old(value.(*List).Items[k])
+//@   ensures s1tail: sliceKey(key) && kstep(key) == 1 && seqVal(value) ==> forall k in [0, len(old(l.Items)) - kstop(key, len(old(l.Items)))): l.Items[kstart(key, len(old(l.Items))) + old(vlen(value)) + k] == old(l.Items[kstop(key, len(l.Items)) + k])
+//@   ensures s1value: sliceKey(key) && kstep(key) == 1 && is(value, *List) && value.(*List) != l ==> value.(*List).Items == old(value.(*List).Items) && arr(value.(*List).Items) == old(arr(value.(*List).Items))
+//@   ensures exterr: sliceKey(key) && kstep(key) != 1 && seqVal(value) && old(vlen(value)) != klen(key, len(old(l.Items))) ==> raisesExc(err, ValueError) && l.Items == old(l.Items) && arr(l.Items) == old(arr(l.Items))
+//@   ensures extok: sliceKey(key) && kstep(key) != 1 && seqVal(value) && old(vlen(value)) == klen(key, len(old(l.Items))) ==> err == nil && len(l.Items) == len(old(l.Items))
+//@   ensures extfirstT: sliceKey(key) && kstep(key) != 1 && is(value, Tuple) && tupleApart(value, l) && len(value.(Tuple)) == klen(key, len(old(l.Items))) && len(value.(Tuple)) > 0 ==> l.Items[kstart(key, len(old(l.Items)))] == old(value.(Tuple)[0])
+//@   ensures extlastT: sliceKey(key) && kstep(key) != 1 && is(value, Tuple) && tupleApart(value, l) && len(value.(Tuple)) == klen(key, len(old(l.Items))) && len(value.(Tuple)) > 0 ==> l.Items[kstart(key, len(old(l.Items))) + (len(value.(Tuple)) - 1) * kstep(key)] == old(value.(Tuple)[len(value.(Tuple)) - 1])
+//@   ensures extfirstL: sliceKey(key) && kstep(key) != 1 && is(value, *List) && old(len(value.(*List).Items)) == klen(key, len(old(l.Items))) && old(len(value.(*List).Items)) > 0 ==> l.Items[kstart(key, len(old(l.Items)))] == old(value.(*List).Items[0])
+//@   ensures extlastL: sliceKey(key) && kstep(key) != 1 && is(value, *List) && old(len(value.(*List).Items)) == klen(key, len(old(l.Items))) && old(len(value.(*List).Items)) > 0 ==> l.Items[kstart(key, len(old(l.Items))) + (klen(key, len(old(l.Items))) - 1) * kstep(key)] == old(value.(*List).Items[len(value.(*List).Items) - 1])
+//@   loop 1 (i, j) staged
+//@     invariant lin: 0 <= j && j <= slicelength && (j < slicelength ==> i == start + j*step)
+//@     invariant shape: l.Items == pre(l.Items) && len(newItems) == slicelength && (slicelength > 0 && keyOK(key) && tupleApart(value, l) ==> ref(newItems) != ref(l.Items))
+//@     invariant ahead: 0 < j && j < slicelength ==> (step > 0 ==> start < i) && (step < 0 ==> i < start)
+//@     invariant first: keyOK(key) && tupleApart(value, l) && j > 0 ==> l.Items[start] == newItems[0]
+//@     invariant prev: keyOK(key) && tupleApart(value, l) && j > 0 ==> l.Items[start + (j - 1)*step] == newItems[j - 1]
+//@     decreases slicelength - j
+
+//@ func (*List).M__delitem__(a, key) (res, err)
+//@   requires nn: keyNN(key)
+//@   modifies *
+//@   ensures idxok: isIntLike(key) && 0 <= norm(den(key), len(old(a.Items))) && norm(den(key), len(old(a.Items))) < len(old(a.Items)) ==> err == nil && len(a.Items) == len(old(a.Items)) - 1
+//@   ensures idxbefore: isIntLike(key) && err == nil ==> forall k in [0, norm(den(key), len(old(a.Items)))): a.Items[k] == old(a.Items[k])
+//@   ensures idxafter: isIntLike(key) && err == nil ==> forall k in [norm(den(key), len(old(a.Items))), len(old(a.Items)) - 1): a.Items[k] == old(a.Items[k + 1])
+//@   ensures idxerr: isIntLike(key) && inInt64(den(key)) && !(0 <= norm(den(key), len(old(a.Items))) && norm(den(key), len(old(a.Items))) < len(old(a.Items))) ==> raisesExc(err, IndexError) && a.Items == old(a.Items) && arr(a.Items) == old(arr(a.Items))
+//@   ensures s1ok: sliceKey(key) && kstep(key) == 1 ==> err == nil && len(a.Items) == len(old(a.Items)) - klen(key, len(old(a.Items)))
+//@   ensures s1head: sliceKey(key) && kstep(key) == 1 ==> forall k in [0, kstart(key, len(old(a.Items)))): a.Items[k] == old(a.Items[k])
+//@   ensures s1tail: sliceKey(key) && kstep(key) == 1 ==> forall k in [0, len(old(a.Items)) - kstop(key, len(old(a.Items)))): a.Items[kstart(key, len(old(a.Items))) + k] == old(a.Items[kstop(key, len(a.Items)) + k])
+//@   ensures extlen: sliceKey(key) && kstep(key) != 1 ==> err == nil && len(a.Items) == len(old(a.Items)) - klen(key, len(old(a.Items)))
+//@   loop 1 (i, j)
+//@     invariant lin: 0 <= j && j <= slicelength && (j < slicelength ==> i == start + j*step)
+//@     invariant len: keyOK(key) ==> len(a.Items) == pre(len(a.Items)) - j
+//@     invariant pos: keyOK(key) && j < slicelength ==> (step > 0 ==> i - j >= start) && (step < 0 ==> i <= pre(len(a.Items)) - 1 - j)
+//@     decreases slicelength - j
+
 // ---- py/range.go ----
 
 //@ spec rangeWF(r *Range) bool = r.Step != 0 && r.Length == range_len(r.Start, r.Stop, r.Step)
